@@ -472,7 +472,9 @@ func runC10(x *core.Ctx) {
 				x.Eval("fault.zero-values")
 				if f := c10Fault(q, t, kk, desc); f != nil {
 					kk := kk
-					x.Report(f, func() core.Case { return core.Case{Harness: "c10.zero", Params: map[string]any{"type": int(t), "k": kk}} }, func() *core.Finding { return c10Fault(bind.Zero(t), t, kk, desc) })
+					x.Report(f, func() core.Case {
+						return core.Case{Harness: "c10.zero", Params: map[string]any{"type": int(t), "k": kk}}
+					}, func() *core.Finding { return c10Fault(bind.Zero(t), t, kk, desc) })
 				}
 			}
 		}
